@@ -137,7 +137,9 @@ def gammafit(x):
     xtsbar = xts / n
     s = log(xtsbar) - (logs / n)
 
-    if s == 0:
+    # s >= 0 by Jensen's inequality; for (near-)constant data rounding can leave it
+    # zero, slightly negative or NaN, and no gamma distribution can be fitted
+    if not s > 0:
         return (0, 0)
 
     a_est = (3 - s + sqrt((s - 3) ** 2 + 24 * s)) / (12 * s)
